@@ -26,7 +26,9 @@ type Event struct {
 	Kind     string // "ok" (200, good body) | "bad" (200, unparsable body) | "status" | "neterr"
 	Status   int    // Kind == "status"
 	RA       RA
-	BadBody  int // index into badBodies; -1 = good-looking body whose transfer breaks half way (read error)
+	BadBody  int // index into badBodies; -1 = good-looking body whose transfer breaks half way (read error); -2..-7 = valid JSON made unparsable by a prefix / suffix (see badPrefixed)
+	BodyForm int // Kind "ok": 0 compact | 1 leading white space | 2 trailing white space | 3 both | 4 size padding goes into a long "extensions" string instead of white space
+	BodySize int // Kind "ok" / "status": when > 0 the body is padded to exactly this many bytes (around and above 1 MiB)
 	LatMs    int // service latency of the answering hop
 	NetErr   int // Kind == "neterr": 0 plain | 1 timeout-like error with Is(context.DeadlineExceeded) | 2 wraps context.Canceled | 3 bare context.DeadlineExceeded | 4 bare context.Canceled - all while the caller's context is alive
 	Barrier  bool // the answer is held until every caller of the case has its attempt of the same number pending, so that all of them are answered at the same virtual instant
@@ -44,6 +46,9 @@ type Caller struct {
 
 type Case struct {
 	Callers []Caller
+	// LogDelayMs > 0: the client's Logger (jsonclient.Options.Logger) takes that long (virtual time) per
+	// Printf - a slow or contended log sink. The oracle adds it to the upper bounds only.
+	LogDelayMs int
 	// ClientTimeoutMs > 0 builds the http.Client with that Timeout: an answer slower than it is cut by the
 	// client itself - a transport error while the caller's context is alive.
 	ClientTimeoutMs int
@@ -116,7 +121,7 @@ func genRetryable(t *rapid.T) Event {
 			e.NetErr = rapid.IntRange(1, 4).Draw(t, "neterr")
 		}
 	case 1, 2:
-		e.Kind, e.BadBody = "bad", rapid.IntRange(-1, len(badBodies)-1).Draw(t, "badbody")
+		e.Kind, e.BadBody = "bad", rapid.IntRange(-7, len(badBodies)-1).Draw(t, "badbody")
 	case 3, 4:
 		e.Kind, e.Status = "status", 408
 	case 5, 6, 7:
@@ -133,10 +138,19 @@ func genStop(t *rapid.T) Event {
 	switch rapid.IntRange(0, 5).Draw(t, "skind") {
 	case 0, 1, 2:
 		e.Kind = "ok"
+		if rapid.IntRange(0, 3).Draw(t, "wsform") == 0 {
+			e.BodyForm = rapid.IntRange(1, 3).Draw(t, "bodyform")
+		}
 	case 3, 4:
 		e.Kind, e.Status = "status", pick(t, stopStatusesCore, "stop")
 	default:
 		e.Kind, e.Status = "status", pick(t, stopStatusesWide, "stop")
+	}
+	if b := rapid.IntRange(0, 99).Draw(t, "bigbody"); b == 41 || b == 73 { // rare: a body around or above 1 MiB
+		e.BodySize = pick(t, []int{1<<20 - 1, 1 << 20, 1<<20 + 1, 1<<20 + 4096, 2 << 20, 3<<20 + 17}, "size") + 4*rapid.IntRange(0, 3).Draw(t, "sized")
+		if e.Kind == "ok" && rapid.Bool().Draw(t, "inext") {
+			e.BodyForm = 4
+		}
 	}
 	if e.Kind == "status" && rapid.IntRange(0, 3).Draw(t, "noiseRA") == 0 {
 		e.RA = genRA(t) // noise: a Retry-After on an answer that is not retried
@@ -320,12 +334,21 @@ func gen(t *rapid.T) Case {
 // executed with real parallelism. The lower bound must hold per caller against the answer that caller got.
 func genShared(t *rapid.T) Case {
 	c := Case{Procs: 4}
+	if rapid.IntRange(0, 3).Draw(t, "slowlog") != 0 {
+		c.LogDelayMs = rapid.IntRange(1, 20).Draw(t, "logdelay")
+	}
 	n := rapid.IntRange(2, 4).Draw(t, "callers")
 	rounds := rapid.IntRange(1, 6).Draw(t, "rounds")
-	lastBarrier := rapid.Bool().Draw(t, "lastbarrier")
+	lastBarrier := rapid.IntRange(0, 3).Draw(t, "lastbarrier") != 0
 	for i := 0; i < n; i++ {
 		cc := Caller{API: pick(t, []string{"ppr", "addchain", "addprechain"}, "api"), Ctx: "none"}
-		for r := 0; r < rounds; r++ {
+		// some callers succeed earlier than the others: their 200 is answered at the very instant (or a
+		// few ms after) the others get their retryable answers of the same round
+		mine := rounds
+		if rapid.IntRange(0, 2).Draw(t, "shorter") == 0 {
+			mine = rapid.IntRange(0, rounds).Draw(t, "mine")
+		}
+		for r := 0; r < mine; r++ {
 			e := Event{Kind: "status", Status: pick(t, []int{503, 429}, "status"), Barrier: true}
 			switch rapid.IntRange(0, 9).Draw(t, "shape") {
 			case 0, 1, 2, 3: // a long demand
@@ -344,7 +367,7 @@ func genShared(t *rapid.T) Case {
 			}
 			cc.Script = append(cc.Script, e)
 		}
-		cc.Script = append(cc.Script, Event{Kind: "ok", Barrier: lastBarrier})
+		cc.Script = append(cc.Script, Event{Kind: "ok", Barrier: lastBarrier, LatMs: rapid.IntRange(0, 25).Draw(t, "oklat")})
 		c.Callers = append(c.Callers, cc)
 	}
 	return c
@@ -352,7 +375,7 @@ func genShared(t *rapid.T) Case {
 
 var Shared = harness.Define(harness.Opts{
 	Name: "shared",
-	Rule: "2-4 callers sharing one client, no context end, 1-6 rounds in which all callers are answered at the same virtual instant (barrier in the round tripper) with very different Retry-After demands (30..600 s seconds/date vs 0..3 s, absent, network error, 408), then a good 200; run with GOMAXPROCS=4 so that the callers really run in parallel. Same trace oracle as 'retry'. Non-trivial: always (>= 2 attempts per caller).",
+	Rule: "2-4 callers sharing one client, no context end, 1-6 rounds in which all callers still submitting are answered at the same virtual instant (barrier in the round tripper) with very different Retry-After demands (30..600 s seconds/date vs 0..3 s, absent, network error, 408), then a good 200 (some callers get theirs rounds earlier, at the instant or 0..25 ms after the others' retryable answers); three cases in four with a slow client Logger (1..20 ms of virtual time per Printf); run with GOMAXPROCS=4 so that the callers really run in parallel. Same trace oracle as 'retry'. Non-trivial: some caller made >= 2 attempts.",
 	Quick: 1500, Thorough: 5000, Crashy: true,
 }, genShared, check)
 
